@@ -9,6 +9,7 @@ import (
 	"sort"
 	"strings"
 	"sync"
+	"sync/atomic"
 	"time"
 
 	"github.com/saucelabs/forwarder"
@@ -478,6 +479,8 @@ func setup(run *lib.Run, name string) *config {
 	return c
 }
 
+var connectSeq atomic.Int64
+
 // connect opens a client connection in the mode of the config (MITM: CONNECT + TLS).
 func (c *config) connect() (*lib.Stream, error) {
 	s, err := lib.Dial(c.p.Addr)
@@ -487,7 +490,16 @@ func (c *config) connect() (*lib.Stream, error) {
 	if !c.mitm {
 		return s, nil
 	}
-	fmt.Fprintf(s.C, "CONNECT %s:443 HTTP/1.1\r\nHost: %s:443\r\n\r\n", originHost, originHost)
+	// some clients put a Content-Length on CONNECT; the proxy documents that it ignores it, so
+	// the session that follows must be unaffected
+	opt := ""
+	switch connectSeq.Add(1) % 3 {
+	case 0:
+		opt = "Content-Length: 11\r\n"
+	case 2:
+		opt = "Content-Length: 0\r\n"
+	}
+	fmt.Fprintf(s.C, "CONNECT %s:443 HTTP/1.1\r\nHost: %s:443\r\n%s\r\n", originHost, originHost, opt)
 	res, st, err := s.ReadResponse("CONNECT", 10*time.Second)
 	if st != lib.POK || res.Status != 200 {
 		s.Close()
@@ -546,6 +558,9 @@ func main() {
 	for ci, name := range []string{"direct", "upstream", "mitm", "deny"} {
 		c := setup(run, name)
 		if !calibrate(run, c) {
+			// a trivial GET through this configuration got no answer: nothing else can be compared
+			// on it, and that is not a reason to stay silent
+			run.Violation("configuration-serves-nothing:"+name, "a plain GET through the "+name+" configuration was not answered", ci*1_000_000, nil)
 			c.p.Stop()
 			c.hop.Close()
 			continue
@@ -586,6 +601,9 @@ func main() {
 		c.hop.Close()
 	}
 	run.Floor("requests_compared", int64(nConns*3))
+	for _, name := range []string{"direct", "upstream", "mitm", "deny"} {
+		run.Floor("requests_compared_"+name, int64(nConns/2))
+	}
 	run.Floor("requests_with_body", int64(nConns/2))
 	run.Floor("pipelined_pairs", int64(nConns/20))
 	run.Floor("refused_midstream", int64(nConns/10))
@@ -704,6 +722,7 @@ func oneConn(run *lib.Run, c *config, root *lib.RNG, idx int, maxBody int) {
 			continue
 		}
 		run.Count("requests_compared", 1)
+		run.Count("requests_compared_"+c.name, 1)
 		if len(sr.Body) > 0 {
 			run.Count("requests_with_body", 1)
 		}
